@@ -68,12 +68,16 @@ DenseStrings(col) ==
                                                           /\ q[1] + q[2] - 1 <= NR
                                                           /\ q[1] + q[2] - 1 >= Max(NonZero(col))}}
 
-Layouts == {"dense", "bigmat", "nonbigmat"}
+\* "bigmat+" = bigmat strings under a POSITIVE row count: what Nastran writes on its own for matrices of 65536 rows
+\* or more (the reader must infer bigmat from the size); nonbigmat is only legal below 65536 rows
+TotalRows == NR + RowOffset
+Layouts == IF TotalRows >= 65536 THEN {"dense", "bigmat", "bigmat+"} ELSE {"dense", "bigmat", "nonbigmat"}
+Big(layout) == layout \in {"bigmat", "bigmat+"}
 
 \* abstract column record
 StringRec(layout, col, s) ==
   LET L == s[2] * W IN
-  [ hw   |-> IF layout = "bigmat" THEN <<L + 1, s[1] + RowOffset>>
+  [ hw   |-> IF Big(layout) THEN <<L + 1, s[1] + RowOffset>>
              ELSE IF layout = "nonbigmat" THEN <<(s[1] + RowOffset) + 65536 * (L + 1)>> ELSE <<>>,
     r0   |-> s[1] + RowOffset, n |-> s[2],
     vals |-> [k \in 1..s[2] |-> col[s[1] + k - 1]] ]
@@ -82,7 +86,7 @@ ColRec(layout, c, col, strs) ==
   [ icol |-> c,
     irow |-> IF layout = "dense" THEN strs[1][1] + RowOffset ELSE 0,
     nw   |-> IF layout = "dense" THEN (IF Ascii THEN strs[1][2] * CPLX ELSE strs[1][2] * W)
-             ELSE LET RECURSIVE S(_) S(i) == IF i = 0 THEN 0 ELSE S(i - 1) + strs[i][2] * W + (IF layout = "bigmat" THEN 2 ELSE 1)
+             ELSE LET RECURSIVE S(_) S(i) == IF i = 0 THEN 0 ELSE S(i - 1) + strs[i][2] * W + (IF Big(layout) THEN 2 ELSE 1)
                   IN S(Len(strs)),
     strs |-> [i \in 1..Len(strs) |-> StringRec(layout, col, strs[i])] ]
 
@@ -163,7 +167,7 @@ Next == UNCHANGED <<M, layout, enc>>
 DecodeIsIdentity == LET d == Decode(enc) IN d[2] /\ d[1] = M
 
 \* the reader recognises the layout that was written (dense needs irow > 0, which the format guarantees)
-LayoutRecognised == Len(enc.cols) > 0 => ReaderLayout(enc) = layout
+LayoutRecognised == Len(enc.cols) > 0 => ReaderLayout(enc) = (IF layout = "bigmat+" THEN "bigmat" ELSE layout)
 
 \* skipping a column (dir, named-subset reads) jumps over exactly the lines that were written
 SkipExact == Ascii => \A i \in 1..Len(enc.cols) :
